@@ -525,6 +525,14 @@ pub fn run_filter_tcp(cfg: &ScenCfg, out: &mut RunOut) {
         let ip = gen_peer_ip(base);
         hash_bytes(&mut wl, format!("{}", ip).as_bytes());
         let from = SocketAddr::new(ip, 2000 + i as u16);
+        // fault: the accept() that would have returned this connection fails first (descriptor or memory
+        // shortage, a connection reset in the backlog); the peer is accepted by a later call - through the filter
+        let accept_fault = cfg.faults && chance(1, 3);
+        if accept_fault {
+            let kind = [std::io::ErrorKind::Other, std::io::ErrorKind::OutOfMemory, std::io::ErrorKind::ConnectionAborted][choose(3) as usize];
+            net::inject_accept_error(addr, kind);
+            out.probe("accept_error_before_peer");
+        }
         let p = match net::connect_from(addr, from) {
             Some(p) => p,
             None => {
@@ -533,6 +541,10 @@ pub fn run_filter_tcp(cfg: &ScenCfg, out: &mut RunOut) {
             }
         };
         kernel::settle();
+        if accept_fault {
+            // (the listener may pause after such an error)
+            kernel::advance(2_000_000_000);
+        }
         tx = tx.wrapping_add(1);
         let (req, rep) = sentinel(tx, 3);
         let calls_before = rig.journal.lock().unwrap().len();
